@@ -15,3 +15,15 @@ func (s *SessionManager) VerifBridgeEnds(tunnelID string) (mappingID, sourceConn
 	}
 	return b.GetMappingID(), b.GetSourceConnectionID(), b.GetTargetConnectionID(), true
 }
+
+// VerifBridgeReady reports whether the bridge registered under tunnelID has been told that its target side is
+// there (a local target attached, or a cross-node TargetReady arrived for it).
+func (s *SessionManager) VerifBridgeReady(tunnelID string) (ready, exists bool) {
+	s.bridgeLock.RLock()
+	b, ok := s.tunnelBridges[tunnelID]
+	s.bridgeLock.RUnlock()
+	if !ok {
+		return false, false
+	}
+	return b.IsTargetReady(), true
+}
